@@ -329,6 +329,28 @@ def renderCallout (T : Tables) (env : SrcEnv) (creator : Text) (allowPlugins : B
       | none => []
       | some m => [kv "MRU Id" (jstr (joinWith [44] (m.items.map fun pi => hexFix 8 pi.2)))]))
 
+/-! #### registry messages, declaratively -/
+
+/-- `seg0 ++ a0 ++ seg1 ++ a1 ++ … ++ segN`: the segments of a message with one argument between consecutive ones
+    (arguments beyond the last gap are ignored) -/
+def interleave : List Text → List Text → Text
+  | [], _ => []
+  | [seg], _ => seg
+  | seg :: segs, [] => seg ++ interleave segs []
+  | seg :: segs, a :: as => seg ++ a ++ interleave segs as
+
+/-- a message text: the segments with a placeholder `%d` (digit value `d`, character `48 + d`) between consecutive ones -/
+def joinPlaceholders : List Text → List Nat → Text
+  | [], _ => []
+  | [seg], _ => seg
+  | seg :: segs, [] => seg ++ joinPlaceholders segs []
+  | seg :: segs, d :: ds => seg ++ [37, 48 + d] ++ joinPlaceholders segs ds
+
+/-- what an argument source `…N` (last character the ASCII digit `N`, 2 ≤ N ≤ 9) stands for: Python's `hex()` of SRC
+    word `N`, i.e. "0x" followed by the lower-case hex digits of the word without leading zeros -/
+def srcWordHex (words : List Nat) (src : Text) : Text :=
+  s "0x" ++ fmtHexL 1 (words.getD (src.getLast?.getD 48 - 48 - 2) 0)
+
 def renderSrc (T : Tables) (env : SrcEnv) (h : AHdr) (creator : Text) (allowPlugins : Bool) (x : ASrc) : J :=
   let w (i : Nat) : Nat := x.words.getD i 0
   let ty := x.ascii.take 2
@@ -344,7 +366,10 @@ def renderSrc (T : Tables) (env : SrcEnv) (h : AHdr) (creator : Text) (allowPlug
     (if isBmc then [kv "Backplane CCIN" (jstr (hexFix 4 (w 1 / 65536))),
                     kv "Terminate FW Error" (boolStr (w 3 / 2^29 % 2 = 1))] else []) ++
     (if isBmc ∨ isHb then [kv "Deconfigured" (boolStr (w 3 / 2^25 % 2 = 1)),
-                           kv "Guarded" (boolStr (w 3 / 2^24 % 2 = 1))] else []) ++
+                           kv "Guarded" (boolStr (w 3 / 2^24 % 2 = 1))] ++
+                          (match errorDetails env.registry x.ascii x.words with
+                            | .some ms => [kv "Error Details" (.obj ms)]
+                            | _ => []) else []) ++
     [kv "Valid Word Count" (jstr (ox (hexFix 2 x.wordCount))),
      kv "Reference Code" (jstr (stripSp x.ascii))] ++
     (((List.range (x.wordCount + 1)).drop 2).map fun i => (s "Hex Word " ++ natDec i, jstr (hexFix 8 (w (i - 2))))) ++
@@ -358,15 +383,28 @@ def renderSrc (T : Tables) (env : SrcEnv) (h : AHdr) (creator : Text) (allowPlug
         | _ => [])
      else []))
 
-/-- whether the SRC parser environment lets this SRC be displayed at all (a plugin returning invalid JSON rejects the PEL) -/
+/-- whether the message registry lets this SRC be displayed: for BMC / power / hostboot SRCs building the "Error Details"
+    must neither raise (a malformed registry entry rejects the PEL) nor leave the modelled subset of Python -/
+def registryDisplayable (env : SrcEnv) (x : ASrc) : Bool :=
+  let ty := x.ascii.take 2
+  if ty = s "BD" ∨ ty = s "11" ∨ ty = s "BC" then
+    match errorDetails env.registry x.ascii x.words with
+    | .fail => false
+    | .unsupported => false
+    | _ => true
+  else true
+
+/-- whether the SRC parser environment lets this SRC be displayed at all (a plugin returning invalid JSON rejects the PEL;
+    so does a registry entry whose message cannot be built) -/
 def srcDisplayable (env : SrcEnv) (creator : Text) (allowPlugins : Bool) (x : ASrc) : Bool :=
-  if !allowPlugins then true else
+  registryDisplayable env x &&
+  (if !allowPlugins then true else
   let w (i : Nat) : Nat := x.words.getD i 0
   let hexw := ((List.range (x.wordCount + 1)).drop 2).map fun i => hexFix 8 (w (i - 2))
   match srcDetails env creator x.ascii (hexw ++ List.replicate (8 - hexw.length) (s "00000000")) with
   | .fail => false
   | .unsupported => false
-  | _ => true
+  | _ => true)
 
 def renderDefault (h : AHdr) (payload : Bytes) : J :=
   .obj [kv "Section Version" (jnum h.ver), kv "Sub-section type" (jnum h.sub),
